@@ -18,6 +18,18 @@ The caller may drop the service, every clone of it and the layer at any time (`O
 harness's `manual dropsvc`): the response futures own what they need, so this only prevents
 further calls (flag `svcGone`, read by `arrive` alone; TR.Props.C17.dropsvc_only_stops_new_calls).
 
+Readiness (`Fallback::poll_ready`, lib.rs:270): the layer forwards `poll_ready` to the wrapped
+service and wraps an error in the pass-through variant `FallbackError::Inner` — nothing else: no
+predicate, no strategy, and the backup service is not consulted (it is a closure `Fn(Req) -> Future`,
+it has no readiness the layer could poll). The wrapped service answers successive `poll_ready`
+calls from a script (`Cfg.ready`: ready / pending / error); a caller polls readiness once when it
+arrives: pending — it gives up (`notReady`), error — it gets that error, unchanged. The backup
+closure of the harness is `|req| async move { backup.ready().await?.call(req).await }` on a second
+scripted service (`Cfg.bready`; without a script `|req| backup.call(req)`, which is the same
+thing for a service that is always ready): a pending answer makes the response future wake itself (it is polled again in the
+same step), a readiness error of the backup is a failure of the backup (`FallbackFailed`), with no
+backup call.
+
 The user-supplied functions of the configuration are fixed, injective-enough test functions
 (`strategyValue` … below); each of their invocations is an event (`callback`).
 -/
@@ -32,10 +44,21 @@ inductive Strategy
   | exception    -- `FallbackStrategy::Exception(t)`         : `Err(Inner(t(error)))`
 deriving DecidableEq, Repr, Inhabited
 
+/-- answer of a scripted service to one `poll_ready` -/
+inductive Rdy
+  | ready
+  | pending
+  | error      -- `Poll::Ready(Err(readyErr))`
+deriving DecidableEq, Repr, Inhabited
+
 structure Cfg where
   strat  : Strategy
   handle : Option Nat      -- handle predicate as a bit mask over error kinds; `none` = no predicate
   val    : Nat             -- the configured static value / base of the value function
+  /-- answers of the wrapped service to successive `poll_ready` calls (on any clone); ready once exhausted -/
+  ready  : List Rdy := []
+  /-- the same for the backup service of the service strategy -/
+  bready : List Rdy := []
 deriving Repr
 
 structure Request where
@@ -66,6 +89,9 @@ inductive Outcome
   | inner (e : IErr)       -- `FallbackError::Inner`
   | failed (e : IErr)      -- `FallbackError::FallbackFailed`
 deriving DecidableEq, Repr, Inhabited
+
+/-- the error with which a scripted service fails `poll_ready` (world.rs: `IErr { kind: 9, v: 0 }`) -/
+def readyErr : IErr := ⟨9, 0⟩
 
 /-- invocation of a user-supplied function of the configuration -/
 inductive Callback
@@ -124,6 +150,22 @@ def afterBackup : IRes → Outcome
   | .ok r  => .ok r
   | .err e => .failed e
 
+/-- `Fallback::poll_ready` (lib.rs:270): `self.inner.poll_ready(cx).map_err(FallbackError::Inner)`.
+A readiness error of the wrapped service surfaces unchanged under the pass-through variant; neither
+the configuration (predicate, strategy) nor the backup service has any part in it. -/
+def pollReady : Rdy → Option (Option Outcome)
+  | .ready => some none
+  | .pending => none
+  | .error => some (some (.inner readyErr))
+
+/-- the answer number `i` of a readiness script -/
+def answer (script : List Rdy) (i : Nat) : Rdy := script.getD i .ready
+
+/-- number of leading `pending` answers -/
+def pendingRun : List Rdy → Nat
+  | .pending :: tl => pendingRun tl + 1
+  | _ => 0
+
 /-- the whole layer as one pure reference function of (configuration, request, value-function
 counter, inner result, backup result): callbacks made, was the backup called, outcome -/
 def resolve (cfg : Cfg) (rq : Request) (n : Nat) (ri rb : IRes) : List Callback × Bool × Outcome :=
@@ -150,6 +192,7 @@ inductive FEv
   | resp (c : Nat) (o : Outcome)           -- full payload of the result
   | result (c : Nat) (o : Outcome)
   | panicked (c : Nat)
+  | notReady (c : Nat)                     -- `poll_ready` was pending when `c` arrived: no call is made
 deriving DecidableEq, Repr, Inhabited
 
 inductive Phase
@@ -169,6 +212,10 @@ structure State where
   dropped: no further call can be made. Read by `arrive` only — the response futures own their
   configuration (`Arc::clone(&self.config)`, lib.rs:278), so nothing else may depend on it. -/
   svcGone : Bool := false
+  /-- number of `poll_ready` answers of the wrapped service consumed so far -/
+  rdy     : Nat := 0
+  /-- … and of the backup service -/
+  brdy    : Nat := 0
 deriving Repr
 
 inductive Op
@@ -211,19 +258,32 @@ def isValueFn : FEv → Bool
 def pollBackup (s : State) (c : Nat) (rq : Request) (k t : Nat) (out : Out) : State :=
   if s.now ≥ t ∧ out ≠ .never then setPhase (emit s (completionBackup c rq k out)) c .done else s
 
-/-- `backup(req_clone)`: the call happens, then the returned future is polled in the same step -/
-def startBackup (s : State) (c : Nat) (rq : Request) (bk : Step) : State :=
+/-- the backup service is ready: the call happens, then the returned future is polled in the same step -/
+def callBackup (s : State) (c : Nat) (rq : Request) (bk : Step) : State :=
   let s1 := emit { s with serial := s.serial + 1 } [.backupCall c s.serial rq]
   pollBackup (setPhase s1 c (.backup rq s.serial (s.now + bk.lat) bk.out)) c rq s.serial (s.now + bk.lat) bk.out
 
+/-- events when the backup service fails readiness: that is a failure of the backup, there is no backup call -/
+def backupNotReady (c : Nat) : List FEv := [.resp c (afterBackup (.err readyErr)), .result c (afterBackup (.err readyErr))]
+
+/-- `backup(req_clone).await`, the backup closure being `ready().await?` then `call(req)`: the pending
+answers of the backup's `poll_ready` are consumed within this step (each makes the future wake
+itself, so it is polled again at once), then it is ready — the call — or fails -/
+def startBackup (cfg : Cfg) (s : State) (c : Nat) (rq : Request) (bk : Step) : State :=
+  let j := pendingRun (cfg.bready.drop s.brdy)
+  let s0 := { s with brdy := s.brdy + j + 1 }
+  match answer cfg.bready (s.brdy + j) with
+  | .error => setPhase (emit s0 (backupNotReady c)) c .done
+  | _ => callBackup s0 c rq bk
+
 /-- after the completion block: finished, or on to the backup service -/
-def continueWith (s1 : State) (c : Nat) (rq : Request) (bk : Step) : Next → State
+def continueWith (cfg : Cfg) (s1 : State) (c : Nat) (rq : Request) (bk : Step) : Next → State
   | .fin => setPhase s1 c .done
-  | .toBackup => startBackup s1 c rq bk
+  | .toBackup => startBackup cfg s1 c rq bk
 
 /-- the poll in which the inner call completes: its completion block is emitted in one piece -/
 def completeInner (cfg : Cfg) (s : State) (c : Nat) (rq : Request) (k : Nat) (out : Out) (bk : Step) : State :=
-  continueWith
+  continueWith cfg
     (emit { s with fnCalls := s.fnCalls + (completionInner cfg c rq s.fnCalls k out).1.countP isValueFn }
       (completionInner cfg c rq s.fnCalls k out).1)
     c rq bk (completionInner cfg c rq s.fnCalls k out).2
@@ -238,10 +298,22 @@ def pollFresh (cfg : Cfg) (s : State) (c : Nat) (rq : Request) (plan : List Step
   let s1 := emit { s with serial := s.serial + 1 } [.innerCall c s.serial rq]
   pollInner cfg (setPhase s1 c (.inner rq s.serial (s.now + st.lat) st.out bk)) c rq s.serial (s.now + st.lat) st.out bk
 
+/-- events of an arrival, by what `Fallback::poll_ready` returned -/
+def arriveEvents (c : Nat) : Option (Option Outcome) → List FEv
+  | none => [.notReady c]
+  | some none => []
+  | some (some o) => [.resp c o, .result c o]
+
+/-- a caller arrives: it clones the service and polls it ready once (one answer of the wrapped
+service's script); only when that is `Ready(Ok)` does it make the call -/
+def arriveS (cfg : Cfg) (s : State) (c tag : Nat) (plan : List Step) : State :=
+  let s1 := emit { s with rdy := s.rdy + 1 } (arriveEvents c (pollReady (answer cfg.ready s.rdy)))
+  setPhase s1 c (if pollReady (answer cfg.ready s.rdy) = some none then .fresh ⟨c, tag⟩ plan else .done)
+
 def stepS (cfg : Cfg) (s : State) (op : Op) : State :=
   match op with
   | .adv ms => { s with now := s.now + ms }
-  | .arrive c tag plan => if s.svcGone || known s c then s else setPhase s c (.fresh ⟨c, tag⟩ plan)
+  | .arrive c tag plan => if s.svcGone || known s c then s else arriveS cfg s c tag plan
   | .dropsvc => { s with svcGone := true }
   | .poll c =>
       match lookup s.phase c with
@@ -282,17 +354,26 @@ def Outcome.res : Outcome → Res
   | .inner e => .inner e.kind e.v
   | .failed e => .allFailed e.kind e.v
 
-def FEv.toEv : FEv → Ev
-  | .innerCall c k _ => .innerCall c k
+/-- `sx` / `bx`: the wrapped / the backup service has a readiness script (header `ready=` / `bready=`);
+the scripted service then logs the request's tag and whether the instance it is called on was polled
+ready — always, here: `Fallback::call` takes the instance `poll_ready` was called on (lib.rs:276), the
+backup closure calls the clone it polled -/
+def FEv.toEv (sx bx : Bool) : FEv → Ev
+  | .innerCall c k rq => if sx then .innerCallX c k rq.tag true else .innerCall c k
   | .innerDone c k o => .innerDone c k o
   | .innerDrop c k => .innerDrop c k
-  | .backupCall c k _ => .raw s!"binner_call {c} {k}"
+  | .backupCall c k rq => .raw (if bx then s!"binner_call {c} {k} tag={rq.tag} ready=1" else s!"binner_call {c} {k}")
   | .backupDone c k o => .raw s!"binner_done {c} {k} {o.render}"
   | .backupDrop c k => .raw s!"binner_drop {c} {k}"
   | .callback _ cb => .raw cb.render
   | .resp c o => .raw s!"resp {c} {o.detail}"
   | .result c o => .result c o.res
   | .panicked c => .result c .panic
+  | .notReady c => .result c .notReady
+
+/-- `ready=rpe…`: r ready, p pending, e error (anything else: ready) -/
+def parseReady (s : String) : List Rdy :=
+  s.toList.map fun ch => if ch = 'p' then .pending else if ch = 'e' then .error else .ready
 
 def parseStrategy (s : String) : Strategy :=
   if s = "value" then .value
@@ -325,17 +406,18 @@ def refused (s : State) : Op → Bool
   | _ => false
 
 def machine : Machine where
-  σ := Cfg × State
+  σ := (Bool × Bool) × Cfg × State
   init kv :=
     let cfg : Cfg := { strat := parseStrategy (kv.str "strategy" "value"), handle := kv.optNat "handle",
-                       val := kv.nat "val" 0 }
-    (cfg, init)
-  step := fun (cfg, s) ws =>
+                       val := kv.nat "val" 0, ready := parseReady (kv.str "ready" ""),
+                       bready := parseReady (kv.str "bready" "") }
+    (((kv.get "ready").isSome, (kv.get "bready").isSome), cfg, init)
+  step := fun (x, cfg, s) ws =>
     match parseOp ws with
     | some op =>
         let s' := stepS cfg s op
-        ((cfg, s'), (s'.log.drop s.log.length).map FEv.toEv ++ (if refused s op then [.raw "noop"] else []))
-    | none => ((cfg, s), [])
-  now := fun (_, s) => s.now
+        ((x, cfg, s'), (s'.log.drop s.log.length).map (FEv.toEv x.1 x.2) ++ (if refused s op then [.raw "noop"] else []))
+    | none => ((x, cfg, s), [])
+  now := fun (_, _, s) => s.now
 
 end TR.Fallback
